@@ -138,7 +138,7 @@ StateArc(s, b) ==
 Arc(s, b) == LET a == AnywhereArc(b) IN IF a[1] # "-" THEN a ELSE StateArc(s, b)
 
 \* Actions with no observable effect; the table distinguishes them, callbacks cannot.
-Silent(a) == a \in {"None", "Ignore"}
+SilentAction(a) == a \in {"None", "Ignore"}
 
 \* One representative per byte class distinguished by Arc (computed, not hand-picked):
 \* two bytes are equivalent iff every state maps them to the same arc.
